@@ -234,3 +234,51 @@ func VerifC19Limits() {
 	}
 	nd.Reach("end")
 }
+
+// VerifC19MalformedKey: a BatchGetItem that names, among well-formed keys of stored items, one key that an
+// individual GetItem refuses (a key attribute missing, of another type, or under another name), in any
+// position: either the batch is refused as a whole or - when it answers - its response holds exactly what the
+// individual GetItem calls for the well-formed keys return; a refused key never hides the items after it.
+func VerifC19MalformedKey() {
+	c := NewClient()
+	nd.Assert(AddTable(vCtx, c, vTbl, "p", "s") == nil, "setup-addtable")
+	k1, k2 := nd.StringN("k1", 1), nd.StringN("k2", 1)
+	nd.Assume(k1 != k2)
+	for _, k := range []string{k1, k2} {
+		nd.Assert(vPut(c, vItem{"p": vS(k), "s": vS("r"), "v": vS("v" + k)}) == nil, "setup-put")
+	}
+	bad := []vItem{{"p": vS(k1)}, {"p": vN("1"), "s": vS("r")}, {"q": vS(k1), "s": vS("r")}, {"p": vS(k1), "s": &types.AttributeValueMemberBOOL{Value: true}}}[nd.Choice("malformed", 4)]
+	_, gerr := c.GetItem(vCtx, &dynamodb.GetItemInput{TableName: aws.String(vTbl), Key: bad})
+	nd.Assert(gerr != nil, "C19-malformed-key-refused-by-getitem")
+	good := []vItem{{"p": vS(k1), "s": vS("r")}, {"p": vS(k2), "s": vS("r")}}
+	pos := nd.Choice("position", 3)
+	var keys []vItem
+	for i := 0; i <= 2; i++ {
+		if i == pos {
+			keys = append(keys, bad)
+		}
+		if i < 2 {
+			keys = append(keys, good[i])
+		}
+	}
+	bg, err := c.BatchGetItem(vCtx, &dynamodb.BatchGetItemInput{RequestItems: map[string]types.KeysAndAttributes{vTbl: {Keys: keys}}})
+	if err != nil {
+		nd.Reach("batch-refused")
+		nd.Reach("end")
+		return
+	}
+	nd.Reach("batch-answered")
+	got := bg.Responses[vTbl]
+	nd.Assert(len(got) == 2, "C19-batchget-returns-the-stored-items-despite-a-refused-key")
+	for _, k := range []string{k1, k2} {
+		n := 0
+		for _, it := range got {
+			if p, _ := vGetS(it, "p"); p == k {
+				n++
+				nd.Assert(vSameItem(it, vItem{"p": vS(k), "s": vS("r"), "v": vS("v" + k)}), "C19-batchget-item-values")
+			}
+		}
+		nd.Assert(n == 1, "C19-batchget-each-stored-item-once")
+	}
+	nd.Reach("end")
+}
